@@ -82,21 +82,31 @@ func c18Exec(k c18Case) (*sched.Result, []explore.Finding, string) {
 			newHash, size, bs = sha256.New, sha256.Size, sha256.BlockSize
 		}
 		var slots [2]*liveHMAC
+		keyBuf := make([]byte, 512) // the caller keeps its keys in one buffer and rewrites it in place
+		type kept struct {
+			got, want []byte
+			step      int
+		}
+		var keptSums []kept
 		for i, op := range k.Ops {
 			s := slots[op.Slot]
 			switch op.Op {
 			case "acquire":
-				key := c18Key(op.Arg)
+				kc := c18Key(op.Arg)
+				if i%2 == 1 {
+					for j := range kc {
+						kc[j] ^= 0x5a // a different key of the same length
+					}
+				}
+				key := keyBuf[:len(kc)]
+				copy(key, kc)
 				var h hash.Hash
 				if k.SHA256 {
 					h = hmacx.AcquireSHA256(key)
 				} else {
 					h = hmacx.AcquireSHA1(key)
 				}
-				slots[op.Slot] = &liveHMAC{h: h, key: append([]byte(nil), key...)}
-				for j := range key {
-					key[j] = 0xEE // the caller may reuse its key buffer
-				}
+				slots[op.Slot] = &liveHMAC{h: h, key: append([]byte(nil), kc...)}
 				if h.Size() != size || h.BlockSize() != bs {
 					finds = append(finds, explore.Finding{Key: "size", Detail: fmt.Sprintf("Size/BlockSize = %d/%d", h.Size(), h.BlockSize())})
 				}
@@ -117,6 +127,7 @@ func c18Exec(k c18Case) (*sched.Result, []explore.Finding, string) {
 					panic("reference HMAC disagrees with crypto/hmac")
 				}
 				sums++
+				keptSums = append(keptSums, kept{got: s.h.Sum(nil), want: want, step: i})
 				if !bytes.Equal(got[:2], prefix) || !bytes.Equal(got[2:], want) {
 					finds = append(finds, explore.Finding{Key: "wrong-digest", Detail: fmt.Sprintf("step %d %v: Sum = %x, RFC 2104 HMAC(key %dB, %dB written) = %x", i, op, got[2:], len(s.key), len(s.written), want)})
 				}
@@ -130,6 +141,13 @@ func c18Exec(k c18Case) (*sched.Result, []explore.Finding, string) {
 					hmacx.PutSHA1(s.h)
 				}
 				slots[op.Slot] = nil
+			}
+		}
+		// digests handed out earlier must not change when the objects are used further
+		for _, ks := range keptSums {
+			if !bytes.Equal(ks.got, ks.want) {
+				finds = append(finds, explore.Finding{Key: "digest-changed-later", Detail: fmt.Sprintf("the slice returned by Sum(nil) at step %d no longer holds that digest at the end of the history (%x, was %x)", ks.step, ks.got, ks.want)})
+				break
 			}
 		}
 	})
